@@ -77,3 +77,21 @@ Theorem C19_others_only_shrink :
 Proof. exact update_core_others_shrink. Qed.
 Print Assumptions C19_others_only_shrink.
 
+
+(* ---- the include-pattern filter (proofs in Proofs/Include{Filter,Order,Denote,Laws}.v):
+   it keeps exactly the members compatible with one of the patterns (Spec/Patterns.v),
+   for every list of patterns and every well-formed set; SetMatcher.Merge is modelled
+   with its bisection lookup as repaired by commit c7a189b ---- *)
+From SMD Require Import Base.Search Spec.Patterns Proofs.IncludeLaws.
+Theorem C19_include_filter_exact :
+  forall (pats : list (list pematcher)) (s : pset),
+         ps_ok s = true ->
+         forallb wf_pattern pats = true ->
+         ps_ok (ps_filter_include s (include_matcher (map prefix_matcher pats))) = true /\
+         (forall p : path,
+          wf_path p = true ->
+          ps_has p (ps_filter_include s (include_matcher (map prefix_matcher pats))) =
+          ps_has p s && include_keeps pats p).
+Proof. exact include_filter_exact. Qed.
+Print Assumptions C19_include_filter_exact.
+
